@@ -51,7 +51,7 @@ def mkcfg(kind, c, rng):
     base_ms = 1_700_000_000_000
     base = (base_ms // (unit * period)) * period if rng.random() < 0.7 else 0
     return {"kind": kind, "size": c["size"], "slide": c.get("slide", 0), "moo": c["moo"], "al": c["al"],
-            "unit": unit, "groups": rng.choice([1, 2, 2, 3]), "base": base}
+            "unit": unit, "groups": rng.choice([1, 2, 2, 3]), "base": base, "ahead": rng.random() < 0.15}
 
 
 def random_free(kind, c, rng, n):
@@ -66,7 +66,7 @@ def random_free(kind, c, rng, n):
         jitter = rng.randint(0, c["moo"] + (2 if rng.random() < 0.2 else 0))
         ts = max(0, t - jitter)
         st = {"a": "add", "id": i, "ts": ts}
-        if rng.random() < 0.03:
+        if rng.random() < 0.04:
             st["fut"] = 1
         steps.append(st)
     return steps
@@ -139,3 +139,16 @@ def run_family(prop, tier, plan, free_plan, assumptions):
         mc.update(c.get("mc", {}))
         model_check(res, kind, mc)
     return res.finish()
+
+
+def replay_one(sc):
+    vh = vlib.build_vh()
+    sp = os.path.join(vlib.scratch(), "one.ndjson")
+    tp = os.path.join(vlib.scratch(), "one.trace")
+    sc = dict(sc, tr=1)
+    open(sp, "w").write(json.dumps(sc) + "\n")
+    rc, out = vlib.sh([vh, "win", "-scen", sp, "-out", tp], 120)
+    print(out.strip())
+    print(open(tp).read())
+    rej, _, _ = vlib.validate(SPEC, "TraceWin", tp, set())
+    return rej
